@@ -22,7 +22,7 @@ RULE = ('Expressions are generated as lists of operations over an independent tr
         'the nested block); re-encoding the parsed result reproduces the input bytes. Non-trivial: >= 3 operations of '
         'which one has a signed or >= 2-byte operand, or any nested-expression / block / typed-constant operation. '
         'Distinct by SHA-1 of (cell, encoded bytes).')
-N = {'quick': 4000, 'thorough': 300000}
+N = {'quick': 4000, 'thorough': 200000}
 ASSUMPTIONS = [
     'operation table vf/enc/c12_expr.py transcribes DWARF v5 table 7.9 and the GNU/WASM extension definitions correctly '
     '(opcode numbers cross-checked against LLVM Dwarf.def; operand widths refereed by readelf 2.40 and llvm-dwarfdump 14 '
@@ -41,7 +41,7 @@ ASSUMPTIONS = [
 
 MAX_DEPTH = 4
 LIT0 = 0x30
-PADDING = bytes([LIT0]) * 16
+PADDING = bytes([LIT0]) * 9     # longest fixed-width over-read is 8 bytes
 
 _lib = None
 
@@ -162,8 +162,8 @@ def first_diff(g, e, where='top'):
                 if ga[j] != ea[j]:
                     if isinstance(ea[j], list) and isinstance(ga[j], list):
                         return first_diff(ga[j], ea[j], eo[1])
-                    return 'args|%s|arg%d' % (eo[1], j), 'element %d %s: expected operands %r got %r' % (i, eo[1], _short(ea), _short(ga))
-        return 'args|%s|count' % eo[1], 'element %d %s: expected operands %r got %r' % (i, eo[1], _short(ea), _short(ga))
+                    return 'args|%s' % fam(eo[1]), 'element %d %s: expected operands %s got %s (operand %d)' % (i, eo[1], _short(ea), _short(ga), j)
+        return 'args|%s|count' % fam(eo[1]), 'element %d %s: expected operands %s got %s' % (i, eo[1], _short(ea), _short(ga))
     if len(g) != len(e):
         return ('len|in=%s|%s' % (where, 'short' if len(g) < len(e) else 'long'),
                 'expected %d operations, got %d' % (len(e), len(g)))
@@ -195,6 +195,14 @@ def _arg_class(kind, got, exp):
     return 'value'
 
 
+def fam(name):
+    """bucket-key spelling: the three generated families share one key"""
+    for pre in ('DW_OP_lit', 'DW_OP_reg', 'DW_OP_breg'):
+        if name.startswith(pre) and name[len(pre):].isdigit():
+            return pre + 'N'
+    return name
+
+
 def _parse1(cell, data):
     try:
         return canon(parser_for(*cell).parse_expr(list(data))), None
@@ -208,22 +216,25 @@ def diag_op(op, cell):
     le, fmt, asz, ver = cell
     code = op[0]
     name = X.NAME[code]
+    kname = fam(name)
     b, eargs = X.encode_op(op, le, fmt, asz)
     want = [code, name, eargs, 0]
+    # one parse decides the common case: the operation followed by sentinel operations
+    c2, err2 = _parse1(cell, b + PADDING)
+    if err2 is None and c2 == [want] + [[LIT0, 'DW_OP_lit0', [], len(b) + i] for i in range(len(PADDING))]:
+        return None
     c, err = _parse1(cell, b)
     if err is None and c == [want]:
-        # fine on its own; framing of what follows
-        c2, err2 = _parse1(cell, b + PADDING)
-        exp2 = [want] + [[LIT0, 'DW_OP_lit0', [], len(b) + i] for i in range(len(PADDING))]
+        # fine on its own, but not the framing of what follows
         if err2 is not None:
             t, site = exc_site(err2)
-            return 'op.trailing.exc|%s|%s' % (name, t), '%s (%s) followed by 16 x DW_OP_lit0 raised %s: %s' % (name, b[:40].hex(), t, str(err2)[:200])
-        if c2 != exp2:
-            return 'op.trailing|%s' % name, 'operations after %s (%s) not parsed as 16 x DW_OP_lit0: %s' % (name, b[:40].hex(), _short(c2[1:]))
-        return None
+            return 'op.trailing.exc|%s|%s' % (kname, t), '%s (%s) followed by %d x DW_OP_lit0 raised %s: %s' % (
+                name, b[:40].hex(), len(PADDING), t, str(err2)[:200])
+        return 'op.trailing|%s' % kname, 'operations after %s (%s) not parsed as %d x DW_OP_lit0: %s' % (
+            name, b[:40].hex(), len(PADDING), _short(c2[1:]))
     if isinstance(err, KeyError) and err.args == (code,):
         t, site = exc_site(err)
-        return 'op.exc|%s|%s|%s' % (name, t, site), '%s (%s) raised KeyError: %s - listed by name, but no operand parser' % (name, b[:40].hex(), err)
+        return 'op.exc|%s|%s|%s' % (kname, t, site), '%s (%s) raised KeyError: %s - listed by name, but no operand parser' % (name, b[:40].hex(), err)
     # how many bytes does the library take for this operation?  smallest prefix of (op + lit0 padding)
     # that parses as exactly one operation
     full = b + PADDING
@@ -243,33 +254,33 @@ def diag_op(op, cell):
     if consumed is None:
         if err is not None:
             t, site = exc_site(err)
-            return 'op.exc|%s|%s|%s' % (name, t, site), '%s (%s) raised %s: %s' % (name, b[:40].hex(), t, str(err)[:200])
-        return 'op.shape|%s' % name, 'parse of %s (%s) gave %s' % (name, b[:40].hex(), _short(c))
+            return 'op.exc|%s|%s|%s' % (kname, t, site), '%s (%s) raised %s: %s' % (name, b[:40].hex(), t, str(err)[:200])
+        return 'op.shape|%s' % kname, 'parse of %s (%s) gave %s' % (name, b[:40].hex(), _short(c))
     if first[0] != code:
-        return 'op.opcode|%s' % name, 'opcode %#x reported as %r' % (code, first[0])
+        return 'op.opcode|%s' % kname, 'opcode %#x reported as %r' % (code, first[0])
     if first[1] != name:
-        return 'op.name|%s|got=%s' % (name, first[1]), 'opcode %#x named %r, the table name is %s' % (code, first[1], name)
+        return 'op.name|%s|got=%s' % (kname, fam(str(first[1]))), 'opcode %#x named %r, the table name is %s' % (code, first[1], name)
     if first[3] != 0:
-        return 'op.offset0|%s' % name, 'first operation at offset %r' % (first[3],)
+        return 'op.offset0|%s' % kname, 'first operation at offset %r' % (first[3],)
     if consumed != len(b):
         d = consumed - len(b)
         variable = any(k in ('U', 'S', 'B', 'T', 'E', 'Wv') for k in ARGKINDS[code])
-        ds = ('%+d' % d) if not variable else ('+' if d > 0 else '-')
-        return ('op.width|%s|delta=%s' % (name, ds),
+        ds = ('%+d' % d) if not variable else 'var'
+        return ('op.width|%s|delta=%s' % (kname, ds),
                 '%s encoded in %d bytes (%s), the library takes %d; operands expected %s got %s' % (
                     name, len(b), b[:40].hex(), consumed, _short(eargs), _short(first[2])))
     ga = first[2]
     if not isinstance(ga, list) or len(ga) != len(eargs):
-        return 'op.args|%s|count' % name, '%s (%s): expected operands %s got %s' % (name, b[:40].hex(), _short(eargs), _short(ga))
+        return 'op.args|%s|count' % kname, '%s (%s): expected operands %s got %s' % (name, b[:40].hex(), _short(eargs), _short(ga))
     for j in range(len(eargs)):
         if ga[j] != eargs[j]:
             if isinstance(eargs[j], list) and isinstance(ga[j], list):
                 fd = first_diff(ga[j], eargs[j], name)
                 return 'op.nested.%s' % fd[0], '%s (%s): %s' % (name, b[:40].hex(), fd[1])
             cls = _arg_class(ARGKINDS[code][j], ga[j], eargs[j])
-            return ('op.args|%s|%s' % (name, cls),
+            return ('op.args|%s|%s' % (kname, cls),
                     '%s (%s): expected operands %s got %s (operand %d)' % (name, b[:40].hex(), _short(eargs), _short(ga), j))
-    return 'op.shape|%s' % name, 'parse of %s (%s) gave %s' % (name, b[:40].hex(), _short(first))
+    return 'op.shape|%s' % kname, 'parse of %s (%s) gave %s' % (name, b[:40].hex(), _short(first))
 
 
 def prune(ctx, ops, cell, case, seen):
@@ -697,8 +708,7 @@ def sweep_ops_for(code, cell, tier):
         big = [[0x9e, [_pat(130)], []], [0x08, [0xff], []]]
         for inner, pad in (([], 0), ([], 2), ([[0x30, [], []]], 0), ([[0x55, [], []], [0x91, [-8], [1]]], 1),
                            (chain, 0), (big, 0), (big, 1),
-                           ([[0x0b, [-2], []], [0x92, [300, -300], [0, 2]], [0xa4, [5, _pat(4)], []]] if 0xa4 in lib().supported
-                            else [[0x0b, [-2], []]], 0)):
+                           ([[0x0b, [-2], []], [0x92, [300, -300], [0, 2]], [0xa4, [5, _pat(4)], []]], 0)):
             res.append([code, [inner], [pad] if pad else []])
         return res
     if spec == ('B',):
@@ -736,6 +746,18 @@ def sweep_ops_for(code, cell, tier):
     return res
 
 
+def _listed_only(ops, ok):
+    """drop operations the library does not list (the hand-written nested bodies use fixed opcodes)"""
+    out = []
+    for op in ops:
+        if op[0] not in ok:
+            continue
+        if 'E' in X.SPEC[op[0]]:
+            op = [op[0], [_listed_only(op[1][0], ok)], op[2] if len(op) > 2 else []]
+        out.append(op)
+    return out
+
+
 def sweep(tier):
     L = lib()
     cases = [{'k': 'tables'}]
@@ -753,7 +775,7 @@ def sweep(tier):
             for i, op in enumerate(sweep_ops_for(code, cell, tier)):
                 ops.append(op)
                 ops.append([0x30 + (i % 32), [], []])          # sentinel: framing after the operation
-            cases.append(mk_case(cell, ops, aslist=bool((ci + code) % 3)))
+            cases.append(mk_case(cell, _listed_only(ops, set(allowed)), aslist=bool((ci + code) % 3)))
         # interaction: every operation with operands once, random boundary-biased operands, shuffled
         codes = r.perm([c for c in allowed if X.SPEC[c]])
         cases.append(mk_case(cell, [gen_op(r, cell, 0, c) for c in codes]))
@@ -770,7 +792,7 @@ def evidence_extra(ctx):
                                'operation is swept in all 32 cells',
             'operations_in_oracle_table': len(X.OPS),
             'operations_listed_by_library': len(L.supported),
-            'operations_not_listed_by_library (not generated)': L.unlisted,
+            'operations_not_listed_by_library': L.unlisted,   # in the oracle table, never generated
             'cells': '2 byte orders x DWARF32/64 x address size 4/8 x version 2..5'}
 
 
@@ -796,6 +818,8 @@ def floors(ctx):
             for asz in (4, 8):
                 if c['cell.%s.%d.a%d' % (le, fmt, asz)] == 0:
                     out.append('cell %s/%d/%d empty' % (le, fmt, asz))
+    if ctx.tier == 'thorough' and c['len.201+'] == 0:
+        out.append('no expression longer than 200 operations')
     if len(L.supported) < 150:
         out.append('library lists only %d operations of the table' % len(L.supported))
     return out
